@@ -11,7 +11,7 @@ import (
 	"go/types"
 )
 
-func init() { register("C39", checkC39, "./db19/...", "./util/ordset/...", "./util/ranges/...") }
+func init() { register("C39", checkC39, "./db19/...", "./util/ordset/...", "./util/ranges/...", "./util/lrucache/...", "./util/cache/...", "./util/roaring/...") }
 
 func checkC39(c *Ctx) string {
 	p := c.P
@@ -42,7 +42,11 @@ func checkC39(c *Ctx) string {
 		}
 	}
 	c.Floor(r2, n, 2, "calls of the checker sets' Insert")
+	checkLruCapacityFitsIndex(c, "C39.3 K23 every capacity of the LRU cache fits its index type")
+	checkCacheHitNeedsUsedSlot(c, "C39.4 K4c the small cache returns values only from filled slots")
+	checkRecycledBlocksCleared(c, "C39.5 K4 recycled bitmap blocks are cleared")
+	checkInsertRoutedBySearch(c, "C39.6 K11 inserts go to the leaf the search selects")
 	return "One clause of C39: in util/ordset and util/ranges every comparison of slots[i] at an index that came from a binary search (which may equal size) is guarded by i < size " +
-		"(found and fixed: ordset leafNode.insert, so that Insert(\"\") stores the empty key), and the result of Set.Insert / Ranges.Insert is used by every caller. NOT decided: ordering and split logic, " +
-		"range merging, sortlist, bloom, roaring, shmap and the caches."
+		"(found and fixed: ordset leafNode.insert, so that Insert(\"\") stores the empty key), and the result of Set.Insert / Ranges.Insert is used by every caller. Also: in ranges.Insert / ordset.Insert the tree position that selects the receiving leaf is only ever computed by searchBinary(key); every capacity lrucache.New can choose fits the element type of its index slice; util/cache returns a stored value only from a slot marked used and marks the slots it fills; util/roaring clears a block recycled from its pool before handing it out (found and fixed). " +
+		"NOT decided: ordering and split logic, range merging, sortlist, bloom, the bit arithmetic of roaring, shmap, the LRU order."
 }
